@@ -86,6 +86,18 @@ def lenS (s : List Nat) : Int := (s.length : Int)
     1,114,112 code points on every run of the writer checks. -/
 def encodeAnsi (s : List Nat) : List Int := (Ansi.encode s).map Int.ofNat
 
+/-- `s[i]` on a `str`: the character (a code point) -/
+def getChar {α} (s : List Nat) (i : Int) (k : Nat → M α) : M α :=
+  let j := if i < 0 then i + lenS s else i
+  if 0 ≤ j ∧ j < lenS s then k (s.getD j.toNat 0) else .error .Other
+
+/-- `c.isupper()`, `c.islower()`, `c.lower()`, `c.upper()` on one character — **ASCII semantics** (the generator's identifiers;
+    text outside ASCII is outside the modelled domain, as in `Model/PyStr.lean`) -/
+def chrIsUpper (c : Nat) : Bool := decide (65 ≤ c) && decide (c ≤ 90)
+def chrIsLower (c : Nat) : Bool := decide (97 ≤ c) && decide (c ≤ 122)
+def chrLower (c : Nat) : Nat := if chrIsUpper c then c + 32 else c
+def chrUpper (c : Nat) : Nat := if chrIsLower c then c - 32 else c
+
 /-- `xs.append(v)` on a `bytearray` -/
 def append {α} (xs : List Int) (v : Int) (k : List Int → M α) : M α :=
   if 0 ≤ v ∧ v < 256 then k (xs ++ [v]) else .error .ValueError
